@@ -542,3 +542,23 @@ func viaScratch(d []byte, call func(arg []byte)) {
 	}()
 	call(buf[:n:n])
 }
+
+// keysWithTTL: the library never asks Redis to expire anything; a key of a structure that carries a
+// time-to-live will silently vanish (nothing in the API would show it before that moment)
+func (c *Ctx) keysWithTTL() []string {
+	var out []string
+	for _, k := range c.mr.Keys() {
+		if c.mr.TTL(k) > 0 {
+			out = append(out, k)
+		}
+	}
+	return out
+}
+
+func (c *Ctx) checkNoTTL(props []string, where string) bool {
+	if ks := c.keysWithTTL(); len(ks) > 0 {
+		c.fail(props, "redis-key-expires", fmt.Sprintf("%s: Redis key %q of a structure now carries a time-to-live (%v): the data will vanish", where, ks[0], c.mr.TTL(ks[0])), map[string]interface{}{"keys": ks, "where": where})
+		return false
+	}
+	return true
+}
